@@ -192,6 +192,11 @@ def main():
                     chk.count("kind:" + v)
 
     asyncio.run(go())
+    # kills that land in the middle of a stream larger than the write buffer, while the client is not reading: every await
+    # inside MysqlStream.write / drain is a place where the cancellation can arrive; the response must still be a prefix
+    # closed by one ERR, in step (shared with C03: harness/props/c03.py interrupted_streams)
+    from c03 import interrupted_streams
+    asyncio.run(interrupted_streams(chk, rng, 30 if not chk.thorough else 300, kill_only=True))
     model = [canon(x) for x in drive(lines)]
     implc = [canon(x) for x in impl]
     # known finding D9d: a KILL QUERY landing while the drain of the response's final packet is blocked appends an ERR
